@@ -22,6 +22,7 @@ META = {
 
 def check(ctx):
     apicompat.check(ctx)
+    apicompat.serialisation_tolerance(ctx)
     ctx.floor("APICOMPAT-import", 30)
     ctx.floor("APICOMPAT-super", 5)
     ctx.floor("APICOMPAT-abstract", 10)
